@@ -60,6 +60,7 @@ class Defs:
     def __init__(self, root, files):
         self.enums = {k: list(v) for k, v in STD_ENUMS.items()}
         self.structs = {}
+        self.field_types = {}
         self.sources = {}
         self.root = root
         for rel in files:
@@ -81,6 +82,7 @@ class Defs:
             body = src[k + 1:e]
             parts = [p for p in split_top(body) if p.strip()]
             names = []
+            types = {}
             for p in parts:
                 p = re.sub(r'#\[[^\]]*\]', '', p).strip()
                 p = re.sub(r'^pub(\([^)]*\))?\s+', '', p)
@@ -91,6 +93,11 @@ class Defs:
                 if not mm:
                     raise Unsupported('definition of %s: %r' % (name, p))
                 names.append(mm.group(1))
+                mt = re.match(r'^[A-Za-z_]\w*\s*:\s*(.*)$', p, re.S)
+                if mt and kind == 'struct':
+                    types[mm.group(1)] = mt.group(1).strip()
+            if kind == 'struct':
+                self.field_types[name] = types
             if kind == 'enum':
                 self.enums[name] = names
             else:
